@@ -13,6 +13,7 @@ Inductive op :=
 | OReload
 | OQuery
 | OSetFail (codes : list Z)            (* from now on the function raises on these settings *)
+| OGrowWriteFails (ids : list Z)       (* Crop.grow(ids) while writing the result file fails (full disk, quota) *)
 | OReap (allow : bool) (clean_up : option bool).
 
 Record st := mk_st { s_obj : obj; s_disk : @disk rv; s_fail : list Z; s_kind : Z }.
@@ -87,6 +88,9 @@ Definition step (s : st) (o : op) : st * val :=
   | OReload => ok (mk_st (reload d) d (s_fail s) (s_kind s)) []
   | OQuery => ok (mk_st (sync ob d) d (s_fail s) (s_kind s)) []
   | OSetFail codes => ok (mk_st ob d codes (s_kind s)) []
+  | OGrowWriteFails _ =>
+      (* the first batch's result cannot be written: grow raises, nothing is published *)
+      (mk_st (sync ob d) d (s_fail s) (s_kind s), VL (VZ 1 :: enc_queries (sync ob d) d))
   | OReap allow cu =>
       match reap d allow cu with
       | Ok (out, d') =>
